@@ -8,16 +8,25 @@ _select_best, StateAugmentation, AttentionModelDecoder.forward) are run on tagge
 env instances; the models are evaluated inside Coq (Harness/HC12.v) on the same inputs and the integer outputs
 compared exactly.  Random branches (torch.multinomial) are compared through their contract: the drawn indices
 are decoded from the implementation's output and handed to the model as its oracle.
-Spec-on-impl (every run): "row r belongs to instance r mod B", entry formulas, best-of-own-rollouts and
-"forced starts feasible under the real reset mask and pairwise distinct per instance whenever k feasible
-starts exist" are evaluated directly on the implementation's outputs; a failing input is reported through
-ctx.failure(signature, replay)."""
+Spec-on-impl (every run, every case, BEFORE and independently of the model comparison): "row r belongs to instance
+r mod B", entry formulas, round trips, best-of-own-rollouts with that rollout's actions/LL, and "forced starts
+(select_start_nodes at k = 2..get_num_starts+2, sample_n_random_actions) feasible under the instance's own reset mask
+and pairwise distinct per instance whenever k feasible starts exist" are evaluated directly on the implementation's
+outputs; a failing input is reported through ctx.failure(signature, replay) with a mechanism-specific signature.  A
+model/implementation disagreement without a spec failure stays a broken correspondence; for the random units it first
+triggers a re-sampling search on the disagreeing input and its neighbours.
+Case files: build/cases_C12_<pid>/cases_C12_<unit>_<k>.v, <= 150 cases and <= 300 KB each, <= 6 coqc at a time
+(VERIF_C12_WORKERS); row tags are binary N literals (unary nat tags made one 900 KB shard cost 9 GB / 160 s)."""
 import itertools
+import os
+import re
+import shutil
 import types
+from concurrent.futures import ThreadPoolExecutor
 
-from vt.common import Ctx, cz, cnat, cnatlist, cboollist, clist, coq_eval_shards
+from vt.common import BUILD, RES_RE, Ctx, cz, cnat, cnatlist, cboollist, clist, coqc_file
 
-HEADER = ("From Coq Require Import List ZArith Bool.\n"
+HEADER = ("From Coq Require Import List ZArith NArith Bool.\n"
           "From RL4CO Require Import Decoding.Batchify Decoding.Nest Decoding.Starts Harness.HC12.\n"
           "Import ListNotations.\n")
 
@@ -29,6 +38,11 @@ NO_DEPOT = ("tsp", "atsp", "flp", "mcp")
 SIG_OP_INFEASIBLE = "select_start_nodes/op: forced-start-infeasible-without-resampling"
 SIG_OP_DUP = "select_start_nodes/op: batch-global-resampling-with-replacement-duplicates"
 SIG_NUM_LOC = "select_start_nodes/generic: modulus-is-generator-num_loc-not-instance-size"
+
+
+SIG_SAMPLE_INFEASIBLE = "sample_n_random_actions: infeasible action sampled"
+SIG_SAMPLE_DUP = "sample_n_random_actions: duplicates-although-k-feasible-starts-exist"
+SIG_SAMPLE_DUP_BATCH = "sample_n_random_actions: batch-global-replacement-duplicates-although-k-feasible-starts-exist"
 
 
 def sig_mask(env_name):
@@ -74,24 +88,138 @@ def all_shapes(maxf, maxnest, extra_nest=()):
         out += list(itertools.product(range(1, maxf + 1), repeat=m))
     for m, f in extra_nest:
         out += list(itertools.product(range(1, f + 1), repeat=m))
-    out += [0, -3, (0,), (-1,), (2, 0), (0, 3), (0, 2, -1), (-2, 2, 3), (3, 0, 2), (1, 1, 1)]
+    out += SPECIAL_SHAPES
     return out
+
+
+SPECIAL_SHAPES = [0, -3, (0,), (-1,), (2, 0), (0, 3), (0, 2, -1), (-2, 2, 3), (3, 0, 2), (1, 1, 1)]
+
+
+def thorough_shapes():
+    """strictly more than the quick set all_shapes(5, 3): every int and every tuple of length <= 2 over 1..7, every
+    triple over 1..5 (= quick) plus the larger-step triples over {1,3,5,7} and {2,4,6}, every 4-tuple over 1..3.
+    (The full cube 1..7 ^3 at B <= 8 is ~40 MB of literals for no additional mechanism.)"""
+    out = list(range(1, 8))
+    for m in (1, 2):
+        out += list(itertools.product(range(1, 8), repeat=m))
+    t3 = set(itertools.product(range(1, 6), repeat=3)) | set(itertools.product((1, 3, 5, 7), repeat=3)) \
+        | set(itertools.product((2, 4, 6), repeat=3))
+    out += sorted(t3)
+    out += list(itertools.product(range(1, 4), repeat=4))
+    out += SPECIAL_SHAPES
+    return out
+
+
+def cNlist(xs):
+    """row tags travel as binary N literals (a nat literal is unary: cost ~ value)"""
+    return "[" + "; ".join("%d%%N" % int(x) for x in xs) + "]"
 
 
 # ----------------------------------------------------------------------------------------- unit evaluation
 
-def eval_unit(ctx, unit, case_type, check_fn, cases, metas, shard=150):
-    """evaluate the model on the recorded cases inside Coq; a non-zero code breaks the correspondence"""
+SHARD_MAX_CASES = 150            # cases per generated file
+SHARD_MAX_BYTES = 300 * 1000     # literal text per generated file (a 900 KB shard of L=2744 rows needed 9 GB / 160 s)
+SHARD_TIMEOUT = 600
+WORKERS = max(1, min(int(os.environ.get("VERIF_C12_WORKERS", "6")), os.cpu_count() or 4))
+_RUN_DIR = [None]
+
+
+def run_dir():
+    """build/cases_C12_<pid>/: one directory per run, so that two C12 runs at the same time (seeded worktrees) cannot
+    overwrite each other's case files; removed at the end of a run in which every shard was evaluated"""
+    if _RUN_DIR[0] is None:
+        d = BUILD / ("cases_C12_%d" % os.getpid())
+        d.mkdir(parents=True, exist_ok=True)
+        _RUN_DIR[0] = d
+    return _RUN_DIR[0]
+
+
+def make_shards(cases, max_cases=SHARD_MAX_CASES, max_bytes=SHARD_MAX_BYTES):
+    """consecutive index ranges with <= max_cases cases and <= max_bytes of literal text (one oversized case = own shard)"""
+    shards, cur, size = [], [], 0
+    for i, c in enumerate(cases):
+        n = len(c) + 4
+        if cur and (len(cur) >= max_cases or size + n > max_bytes):
+            shards.append(cur)
+            cur, size = [], 0
+        cur.append(i)
+        size += n
+    if cur:
+        shards.append(cur)
+    return shards
+
+
+def run_shard(name, text, n):
+    """-> (codes | None, exit status, coqc output)"""
+    path = run_dir() / (name + ".v")
+    path.write_text(text)
+    rc, out = coqc_file(path, timeout=SHARD_TIMEOUT)
+    for q in [path.with_suffix(e) for e in (".vo", ".vok", ".vos", ".glob")] + [path.parent / ("." + path.stem + ".aux")]:
+        if q.exists():
+            q.unlink()
+    codes = None
+    if rc == 0:
+        m = RES_RE.findall(out)
+        if len(m) == 1:
+            codes = [int(t) for t in re.findall(r"-?\d+", m[0].replace("%Z", ""))]
+            if len(codes) != n:
+                codes = None
+    return codes, rc, out or ""
+
+
+def died_without_diagnosis(rc, out):
+    """killed / out of memory / stack / timeout: nothing that Coq itself reported as an error of the file"""
+    if rc == 0:
+        return False
+    return rc < 0 or rc in (124, 134, 137, 139) or not out.strip() or "Error" not in out \
+        or "Stack overflow" in out or "Out of memory" in out
+
+
+def eval_unit(ctx, unit, case_type, check_fn, cases, metas, shard=SHARD_MAX_CASES):
+    """evaluate the model on the recorded cases inside Coq (<= WORKERS coqc at a time, shards bounded in cases and in
+    bytes); a shard that dies without a Coq error message is retried once on its own; a non-zero code or a shard
+    that cannot be evaluated breaks the correspondence.  Returns the codes (None where not evaluated)."""
     if not cases:
         return []
-    try:
-        codes = coq_eval_shards("cases_C12_%s" % unit, HEADER, case_type, check_fn, cases, shard=shard)
-    except RuntimeError as e:
-        ctx.broken.append("correspondence C12/%s could not be evaluated: %s" % (unit, str(e)[-600:]))
-        ctx.units[unit] = {"cases": len(cases), "evaluated": False}
-        return None
-    nz = [(i, c) for i, c in enumerate(codes) if c != 0]
-    ctx.units[unit] = {"cases": len(codes), "disagreements": len(nz)}
+    shards = make_shards(cases, max_cases=shard)
+    texts = []
+    for idxs in shards:
+        texts.append(HEADER + "\nDefinition cases : list (%s) := [\n  %s ].\n" % (case_type, ";\n  ".join(cases[i] for i in idxs))
+                     + "Set Printing Width 1000000.\nSet Printing Depth 1000000.\n"
+                     + "Eval vm_compute in (map (%s) cases).\n" % check_fn)
+    names = ["cases_C12_%s_%03d" % (unit, k) for k in range(len(shards))]
+    with ThreadPoolExecutor(max_workers=WORKERS) as ex:
+        results = list(ex.map(lambda k: run_shard(names[k], texts[k], len(shards[k])), range(len(shards))))
+    retried, errors = [], []
+    for k, (cs, rc, out) in enumerate(results):
+        if cs is not None:
+            continue
+        again = died_without_diagnosis(rc, out)
+        if again:                                   # alone, nothing else of this check running
+            retried.append(names[k])
+            results[k] = run_shard(names[k], texts[k], len(shards[k]))
+        cs2, rc2, out2 = results[k]
+        if cs2 is None:
+            tail = " | ".join(l for l in (out2 or "").strip().splitlines()[-8:])[-700:]
+            errors.append("coqc failed on shard %s (%d cases, %d bytes): exit status %s%s; %s; last lines: %s" % (
+                names[k], len(shards[k]), len(texts[k]), rc2,
+                " (first attempt: %s)" % rc if again else "",
+                "retried once alone, failed again" if again else "not retried (Coq reported an error / unparsable answer)",
+                tail if tail else "<no output: killed, out of memory or stack overflow>"))
+    codes = [None] * len(cases)
+    for idxs, (cs, _, _) in zip(shards, results):
+        if cs is not None:
+            for i, c in zip(idxs, cs):
+                codes[i] = c
+    nz = [(i, c) for i, c in enumerate(codes) if c not in (0, None)]
+    ctx.units[unit] = {"cases": len(cases), "disagreements": len(nz), "shards": len(shards),
+                       "max_shard_bytes": max(len(t) for t in texts), "evaluated": sum(1 for c in codes if c is not None)}
+    if retried:
+        ctx.units[unit]["shards_retried_alone"] = retried
+        ctx.notes.append("C12/%s: shard(s) %s died without a Coq diagnosis and were re-run alone" % (unit, ", ".join(retried)))
+    if errors:
+        ctx.broken.append("correspondence C12/%s could not be evaluated: %s" % (unit, " || ".join(errors)[-1500:]))
+        ctx.extra["unevaluated_shards"] = ctx.extra.get("unevaluated_shards", 0) + len(errors)
     if nz:
         i, c = nz[0]
         ctx.broken.append("correspondence C12/%s: model and implementation differ on %d case(s); first: code %d on %s" % (
@@ -162,7 +290,8 @@ def run(ctx: Ctx, proofs_ok: bool):
     torch.manual_seed(rng.randrange(2 ** 31))
     thorough = tier == "thorough"
     ctx.rule = ("pure helpers: EXHAUSTIVE over batch sizes B<=6 (thorough 8) x all int factors and all tuples of length <=3 "
-                "over factors 1..5 (thorough 1..7, plus length 4 over 1..3) plus shapes containing 0 / negative factors, on tagged "
+                "over factors 1..5 (thorough: additionally ints and tuples of length <=2 over 1..7, triples over {1,3,5,7} and "
+                "{2,4,6}, 4-tuples over 1..3; up to 2744 rows) plus shapes containing 0 / negative factors, on tagged "
                 "int tensors [L,2] and TensorDicts (3 keys, one nested); select_start_nodes on real env instances (tsp atsp cvrp "
                 "sdvrp cvrptw pdp op pctsp spctsp mtsp svrp mtvrp(presets) flp mcp), B<=4, k=1..default+2, OP with hand-set "
                 "max_length so that 0..n nodes are reachable, generator/instance size mismatches; hooks, _select_best with ties, "
@@ -190,7 +319,8 @@ def run(ctx: Ctx, proofs_ok: bool):
 
     # ================================================================================== 1. batchify / unbatchify
     maxB = 8 if thorough else 6
-    shapes = all_shapes(7 if thorough else 5, 3, extra_nest=((4, 3),) if thorough else ())
+    shapes = thorough_shapes() if thorough else all_shapes(5, 3)
+    max_rows = 3000          # guard only: B * prod(factors) of every shape above is <= 8 * 343
     b_cases, b_meta, u_cases, u_meta = [], [], [], []
     for B in range(1, maxB + 1):
         tagsB = rng.sample(range(60), B)
@@ -198,6 +328,9 @@ def run(ctx: Ctx, proofs_ok: bool):
             fs = posfactors(shape)
             P = prod(fs)
             L = B * P
+            if L > max_rows:
+                ctx.count("helper_shapes_skipped_too_many_rows")
+                continue
             nontriv = B > 1 and P > 1
             for kind in ("tensor", "td"):
                 # ---- batchify
@@ -213,7 +346,7 @@ def run(ctx: Ctx, proofs_ok: bool):
                     exp = [tagsB[r % B] for r in range(L)]
                     if outl != exp:
                         fail("batchify: row r does not hold instance r mod B", dict(meta, kind_="batchify", observed=outl, expected=exp))
-                b_cases.append("(%s, %s, %s)" % (czlist_(shape_list(shape)), cnatlist(tagsB), cnatlist(outl)))
+                b_cases.append("(%s, %s, %s)" % (czlist_(shape_list(shape)), cNlist(tagsB), cNlist(outl)))
                 b_meta.append(meta)
                 ctx.seen(meta, nontrivial=nontriv)
                 # ---- unbatchify on L distinct rows (arange for tensors, a permutation for TensorDicts)
@@ -231,11 +364,11 @@ def run(ctx: Ctx, proofs_ok: bool):
                     if not np.array_equal(tg.numpy(), exp):
                         fail("unbatchify: entry [b][j1]..[jm] is not row b + B*(j1 + f1*(j2 + ...))",
                              dict(meta, kind_="unbatchify", x=xt, observed=tg.tolist(), expected=exp.tolist()))
-                    obs = "Some (%s, %s)" % (cnatlist(tg.shape), cnatlist(tg.reshape(-1).tolist()))
+                    obs = "Some (%s, %s)" % (cnatlist(tg.shape), cNlist(tg.reshape(-1).tolist()))
                     # rows r mod B: every entry of block b is one of instance b's rows
                     if not bool((torch.as_tensor(idx) % B == torch.arange(B).view((B,) + (1,) * len(fs))).all()):
                         fail("unbatchify: block b holds a row of another instance", dict(meta, kind_="unbatchify"))
-                u_cases.append("(%s, %s, %s)" % (czlist_(shape_list(shape)), cnatlist(xt), obs))
+                u_cases.append("(%s, %s, %s)" % (czlist_(shape_list(shape)), cNlist(xt), obs))
                 u_meta.append(meta)
                 ctx.seen(meta, nontrivial=nontriv)
                 # ---- expansion followed by its inverse, on the implementation
@@ -256,15 +389,15 @@ def run(ctx: Ctx, proofs_ok: bool):
                 try:
                     u = ops.unbatchify(y, shape)
                     tg = tensor_tags(torch, u) if kind == "tensor" else td_tags(torch, u)
-                    obs = "Some (%s, %s)" % (cnatlist(tg.shape[:1 + len(posfactors(shape))]), cnatlist(tg.reshape(-1).tolist()))
+                    obs = "Some (%s, %s)" % (cnatlist(tg.shape[:1 + len(posfactors(shape))]), cNlist(tg.reshape(-1).tolist()))
                 except Exception:
                     obs = "None"
-                u_cases.append("(%s, %s, %s)" % (czlist_(shape_list(shape)), cnatlist(xt), obs))
+                u_cases.append("(%s, %s, %s)" % (czlist_(shape_list(shape)), cNlist(xt), obs))
                 u_meta.append({"fn": "unbatchify", "kind": kind, "L": L, "shape": shape, "expect": "raise"})
                 ctx.seen(u_meta[-1], nontrivial=True)
                 ctx.count("unbatchify_not_a_multiple")
-    eval_unit(ctx, "batchify", "batchify_case", "check_batchify", b_cases, b_meta, shard=140)
-    eval_unit(ctx, "unbatchify", "unbatchify_case", "check_unbatchify", u_cases, u_meta, shard=140)
+    eval_unit(ctx, "batchify", "batchify_caseN", "check_batchifyN", b_cases, b_meta, shard=140)
+    eval_unit(ctx, "unbatchify", "unbatchify_caseN", "check_unbatchifyN", u_cases, u_meta, shard=140)
     ctx.sample({"unit": "unbatchify", "case": u_meta[len(u_meta) // 2]})
 
     mark("batchify_unbatchify")
@@ -417,7 +550,10 @@ def run(ctx: Ctx, proofs_ok: bool):
             return list(range(1, (N - 1) // 2 + 1))
         return list(range(1, N))
 
-    def record_starts(env, td, k, via_env, label, extra=None):
+    st_rerun = []
+
+    def record_starts(env, td, k, via_env, label, extra=None, record=True, found_by="stream"):
+        """record=False: only re-run the implementation on the input and judge its output by the property (search)"""
         name = env.name
         masks = [[bool(v) for v in row] for row in td["action_mask"].tolist()]
         B, N = len(masks), len(masks[0])
@@ -436,18 +572,22 @@ def run(ctx: Ctx, proofs_ok: bool):
                 "via_env": via_env, "masks": masks, "observed": sel}
         if extra:
             meta.update(extra)
-        st_cases.append("(%s, %s, %s, %s, %s, %s, %s, %s)" % (
-            ENV_CTOR.get(name, "Eother"), copt(None if gen is None else cnat(gen)), cnat(N), cnat(k),
-            clist(cboollist(m) for m in masks), "true" if via_env else "false",
-            clist(cnatlist([max(v, 0) for v in row]) for row in tbl), copt(None if sel is None else cnatlist(sel))))
-        st_meta.append(meta)
-        ctx.seen({k_: v for k_, v in meta.items() if k_ != "observed"}, nontrivial=B > 1 and k > 1)
-        ctx.count("starts_%s" % name)
+        if record:
+            st_cases.append("(%s, %s, %s, %s, %s, %s, %s, %s)" % (
+                ENV_CTOR.get(name, "Eother"), copt(None if gen is None else cnat(gen)), cnat(N), cnat(k),
+                clist(cboollist(m) for m in masks), "true" if via_env else "false",
+                clist(cnatlist([max(v, 0) for v in row]) for row in tbl), copt(None if sel is None else cnatlist(sel))))
+            st_meta.append(meta)
+            st_rerun.append((env, td, k, via_env, label, extra))
+            ctx.seen({k_: v for k_, v in meta.items() if k_ != "observed"}, nontrivial=B > 1 and k > 1)
+            ctx.count("starts_%s" % name)
         if sel is None or len(sel) != k * B:
-            ctx.count("starts_raised")
-            return
-        if needs_resample:
+            if record:
+                ctx.count("starts_raised")
+            return False
+        if needs_resample and record:
             ctx.count("starts_op_resampled")
+        found = False
         # ---- the property on the implementation's output, per instance (k = 1 is not multistart: DecodingStrategy
         #      turns multistart off for num_starts <= 1, so no start is ever forced with k = 1)
         for b in range(B if k >= 2 else 0):
@@ -457,7 +597,7 @@ def run(ctx: Ctx, proofs_ok: bool):
             own = [sel[j * B + b] for j in range(k)]
             feas = [0 <= a < N and m[a] for a in own]
             key = (label, "premise" if nfeas >= k else "no_premise")
-            d = stats.setdefault(key, {"instances": 0, "infeasible": 0, "duplicates": 0})
+            d = stats.setdefault(key, {"instances": 0, "infeasible": 0, "duplicates": 0}) if record else {"instances": 0, "infeasible": 0, "duplicates": 0}
             d["instances"] += 1
             d["infeasible"] += int(not all(feas))
             d["duplicates"] += int(len(set(own)) < k)
@@ -466,11 +606,12 @@ def run(ctx: Ctx, proofs_ok: bool):
             replay = {"kind_": "starts", "env": label, "name": name, "generator_num_loc": gen, "N": N, "k": k, "B": B,
                       "via_env": via_env, "instance_row": b, "reset_masks": masks, "selected": sel,
                       "starts_of_instance": own, "feasible_under_reset_mask": feas, "feasible_candidates": nfeas,
-                      "rng_state_hex": state.numpy().tobytes().hex() if needs_resample else None}
+                      "rng_state_hex": state.numpy().tobytes().hex() if needs_resample else None, "found_by": found_by}
             if extra:
                 replay.update(extra)
             expected_mod = (N if name in NO_DEPOT else N - 1)
             mismatch = name not in ("pdp", "mtvrp", "flp", "mcp") and gen is not None and gen != expected_mod
+            found = found or not all(feas) or len(set(own)) < k
             if not all(feas):
                 if name == "op" and not needs_resample and not mismatch:
                     fail(SIG_OP_INFEASIBLE, replay, "op")
@@ -485,6 +626,7 @@ def run(ctx: Ctx, proofs_ok: bool):
                     fail(SIG_NUM_LOC, replay, "numloc")
                 else:
                     fail("select_start_nodes/%s: duplicate-starts-although-k-feasible-starts-exist" % name, replay, name)
+        return found
 
     def record_num_starts(env, td, label):
         N = td["action_mask"].shape[-1]
@@ -555,12 +697,91 @@ def run(ctx: Ctx, proofs_ok: bool):
     record_starts(types.SimpleNamespace(name="mcp", generator=types.SimpleNamespace()), tdm, 6, False, "stub/mcp-no-num_loc")
     record_starts(types.SimpleNamespace(name="cvrp", generator=types.SimpleNamespace(num_loc=0)), tdm, 2, False, "stub/num_loc-0")
     eval_unit(ctx, "get_num_starts", "numstarts_case", "check_num_starts", n_cases, n_meta)
-    eval_unit(ctx, "select_start_nodes", "starts_case", "check_starts", st_cases, st_meta)
+    st_codes = eval_unit(ctx, "select_start_nodes", "starts_case", "check_starts", st_cases, st_meta)
+    # search: where model and implementation differ, the implementation is run again on that input, on k-1 / k+1 and (random
+    # OP branch) repeatedly, and its output judged by the property itself
+    tries = 0
+    for i in [i for i, c in enumerate(st_codes or []) if c not in (0, None)][:12]:
+        env_, td_, k_, via_, label_, extra_ = st_rerun[i]
+        for kk in (k_, k_ + 1, k_ - 1):
+            if kk < 2:
+                continue
+            for _ in range(20 if env_.name == "op" else 1):
+                tries += 1
+                if record_starts(env_, td_, kk, via_, label_, extra_, record=False,
+                                 found_by="search after disagreement (code %d)" % st_codes[i]):
+                    break
+    ctx.count("starts_search_reruns", tries)
     ctx.extra["forced_starts_on_impl"] = {"%s|%s" % k_: v for k_, v in sorted(stats.items())}
     ctx.sample({"unit": "select_start_nodes", "case": {k_: v for k_, v in st_meta[3].items() if k_ != "masks"}})
 
     # ---- sample_n_random_actions (FJSPEnv.select_start_nodes; eval.py SamplingEval's select_start_nodes_fn)
+    # "valid actions" are the function's own candidates: columns 1.. of the mask (column 0 = depot / no-op).  The stream
+    # holds, for every n, batches in which EVERY instance has exactly n valid actions (the boundary of the function's
+    # replacement test), batches with one instance at the boundary, all-true masks and random masks.
     sm_cases, sm_meta = [], []
+    sm_stats = {"instances_with_premise": 0, "instances_without_premise": 0, "duplicates_with_premise": 0,
+                "duplicates_with_premise_all_rows_have_k": 0, "infeasible": 0}
+
+    def sample_spec(masks, n, sel, state_hex, where):
+        """the property on the implementation's output: every start of instance b is allowed by ITS mask; the n starts
+        of an instance with >= n valid actions are pairwise distinct"""
+        B = len(masks)
+        nvalid = [sum(1 for v in m[1:] if v) for m in masks]
+        found = False
+        for b in range(B):
+            own = [sel[j * B + b] for j in range(n)]
+            feas = [0 <= a < len(masks[b]) and masks[b][a] for a in own]
+            replay = {"kind_": "sample_n", "B": B, "k": n, "n": n, "masks": masks, "selected": sel, "instance_row": b,
+                      "starts_of_instance": own, "feasible_under_mask": feas, "valid_actions_per_instance": nvalid,
+                      "rng_state_hex": state_hex, "found_by": where}
+            if not all(feas):
+                sm_stats["infeasible"] += 1
+                fail(SIG_SAMPLE_INFEASIBLE, replay, "sample_n")
+                found = True
+            if nvalid[b] < n:
+                sm_stats["instances_without_premise"] += 1
+                continue                      # fewer than n valid actions: the property claims nothing
+            sm_stats["instances_with_premise"] += 1
+            if len(set(own)) < n:
+                sm_stats["duplicates_with_premise"] += 1
+                found = True
+                if min(nvalid) >= n:          # every instance of the batch has n valid actions
+                    sm_stats["duplicates_with_premise_all_rows_have_k"] += 1
+                    fail(SIG_SAMPLE_DUP, replay, "sample_n")
+                else:                         # a batch-mate with fewer valid actions switched replacement on for all rows
+                    fail(SIG_SAMPLE_DUP_BATCH, replay, "sample_n_batch")
+        return found
+
+    def call_sample(masks, n):
+        state = torch.get_rng_state()
+        try:
+            sel = [int(v) for v in ops.sample_n_random_actions(
+                TensorDict({"action_mask": torch.tensor(masks)}, batch_size=[len(masks)]), n).tolist()]
+        except Exception:      # noqa: BLE001
+            sel = None
+        if sel is not None and len(sel) != n * len(masks):
+            sel = None
+        return sel, state.numpy().tobytes().hex()
+
+    def record_sample(masks, n, what):
+        B = len(masks)
+        sel, state_hex = call_sample(masks, n)
+        tbl = [] if sel is None else [[sel[j * B + b] for j in range(n)] for b in range(B)]
+        sm_cases.append("(%s, %s, %s, %s)" % (cnat(n), clist(cboollist(m) for m in masks),
+                                           clist(cnatlist(r) for r in tbl), copt(None if sel is None else cnatlist(sel))))
+        sm_meta.append({"fn": "sample_n_random_actions", "n": n, "masks": masks, "observed": sel, "what": what})
+        ctx.seen({"fn": "sample_n", "n": n, "masks": masks}, nontrivial=B > 1 and n > 1)
+        ctx.count("sample_n_cases")
+        ctx.count("sample_n_" + what)
+        if sel is not None:
+            sample_spec(masks, n, sel, state_hex, "stream")
+
+    def mask_with(N, nv, col0):
+        """a mask of width N with exactly nv valid actions among columns 1.."""
+        on = set(rng.sample(range(1, N), nv))
+        return [col0] + [c in on for c in range(1, N)]
+
     for B in (1, 2, 3, 4):
         for N in (3, 4, 6):
             for rep in range(3 if not thorough else 8):
@@ -568,22 +789,32 @@ def run(ctx: Ctx, proofs_ok: bool):
                 if rep == 0:
                     masks = [[True] * N for _ in range(B)]
                 for n in range(1, 5):
-                    try:
-                        sel = [int(v) for v in ops.sample_n_random_actions(TensorDict({"action_mask": torch.tensor(masks)}, batch_size=[B]), n).tolist()]
-                    except Exception:
-                        sel = None
-                    tbl = [] if sel is None else [[sel[j * B + b] for j in range(n)] for b in range(B)]
-                    sm_cases.append("(%s, %s, %s, %s)" % (cnat(n), clist(cboollist(m) for m in masks),
-                                                       clist(cnatlist(r) for r in tbl), copt(None if sel is None else cnatlist(sel))))
-                    sm_meta.append({"fn": "sample_n_random_actions", "n": n, "masks": masks, "observed": sel})
-                    ctx.seen({"fn": "sample_n", "n": n, "masks": masks}, nontrivial=B > 1 and n > 1)
-                    ctx.count("sample_n_cases")
-                    if sel is not None:
-                        for b in range(B):
-                            own = tbl[b]
-                            if not all(masks[b][a] for a in own):
-                                fail("sample_n_random_actions: infeasible action sampled", {"kind_": "sample_n", "masks": masks, "n": n, "selected": sel})
-    eval_unit(ctx, "sample_n_random_actions", "sample_case", "check_sample", sm_cases, sm_meta)
+                    record_sample(masks, n, "all_true" if rep == 0 else "random")
+            # the boundary: number of valid actions == n, for every instance / for one instance of the batch
+            for n in range(2, min(N - 1, 5) + 1):
+                for rep in range(2 if not thorough else 5):
+                    record_sample([mask_with(N, n, rng.random() < 0.5) for _ in range(B)], n, "boundary_all_rows_nvalid_eq_n")
+                    if B > 1 and n < N - 1:
+                        rows = [mask_with(N, n, rng.random() < 0.5)] + [mask_with(N, rng.randint(n + 1, N - 1), rng.random() < 0.5)
+                                                                        for _ in range(B - 1)]
+                        rng.shuffle(rows)
+                        record_sample(rows, n, "boundary_one_row_nvalid_eq_n")
+    sm_codes = eval_unit(ctx, "sample_n_random_actions", "sample_case", "check_sample", sm_cases, sm_meta)
+    # search: a disagreement of a RANDOM unit is re-sampled on the disagreeing input and on its neighbours (n-1, n+1,
+    # the instance alone) and judged by the property itself
+    bad = [i for i, c in enumerate(sm_codes or []) if c not in (0, None)]
+    tries = 0
+    for i in bad[:12]:
+        masks, n = sm_meta[i]["masks"], sm_meta[i]["n"]
+        neigh = [(masks, n), (masks, n + 1)] + ([(masks, n - 1)] if n > 2 else []) + [([m], n) for m in masks[:3]]
+        for mk, nn in neigh:
+            for _ in range(40):
+                sel, state_hex = call_sample(mk, nn)
+                tries += 1
+                if sel is not None and sample_spec(mk, nn, sel, state_hex, "search after disagreement (code %d)" % sm_codes[i]):
+                    break
+    ctx.count("sample_n_search_draws", tries)
+    ctx.extra["sample_n_on_impl"] = sm_stats
 
     mark("start_nodes")
     # ================================================================================== 5. DecodingStrategy.__init__ + pre_decoder_hook
@@ -706,6 +937,13 @@ def run(ctx: Ctx, proofs_ok: bool):
         ctx.failure(sig, rep, tag=tag)
     if thorough:
         run_coqchk(ctx)
+    # generated case files: kept when a shard could not be evaluated (or VERIF_C12_KEEP_CASES=1), removed otherwise
+    if _RUN_DIR[0] is not None:
+        if ctx.extra.get("unevaluated_shards") or os.environ.get("VERIF_C12_KEEP_CASES"):
+            ctx.notes.append("case files kept in %s" % _RUN_DIR[0])
+        else:
+            shutil.rmtree(_RUN_DIR[0], ignore_errors=True)
+        _RUN_DIR[0] = None
 
 
 WHAT = {
@@ -716,6 +954,11 @@ WHAT = {
     SIG_NUM_LOC: "ops.select_start_nodes reduces modulo env.generator.num_loc instead of the instance's number of nodes: an env "
                  "reset on a larger instance repeats starts although get_num_starts(td) <= number of feasible starts "
                  "(Coq: C12_generic_num_loc_mismatch_refuted, C12_tsp_num_loc_mismatch_refuted)",
+    SIG_SAMPLE_DUP: "sample_n_random_actions drew the n starts of an instance WITH replacement (duplicates) although every instance of the "
+                    "batch has at least n valid actions (columns 1.. of its mask); Coq: C12_sample_n_distinct needs sample_replace = false",
+    SIG_SAMPLE_DUP_BATCH: "sample_n_random_actions decides 'with replacement' from the MINIMUM number of valid actions over the batch: an "
+                          "instance with >= n valid actions gets duplicate starts because a batch-mate has fewer",
+    SIG_SAMPLE_INFEASIBLE: "sample_n_random_actions returned an action that the instance's own mask forbids",
     sig_mask("svrp"): "SVRP masks at reset the nodes the first technician cannot serve; the generic start rule forces nodes "
                       "1..k regardless (Coq: C12_generic_ignores_reset_mask_refuted)",
 }
@@ -874,6 +1117,28 @@ def replay(obj):
     from rl4co.utils import ops
     print("signature:", obj.get("signature"))
     print("what     :", obj.get("what"))
+    if obj.get("kind_") == "sample_n":
+        masks = torch.tensor(obj["masks"])
+        B, n, b = masks.shape[0], obj["n"], obj["instance_row"]
+        td = TensorDict({"action_mask": masks}, batch_size=[B])
+        nvalid = [int(v) for v in masks[:, 1:].sum(1).tolist()]
+
+        def judge(sel):
+            own = [sel[j * B + b] for j in range(n)]
+            feas = [bool(masks[b, a]) for a in own]
+            return own, feas, (not all(feas)) or (nvalid[b] >= n and len(set(own)) < n)
+        print("masks: %s   valid actions (columns 1..) per instance: %s   n = %d   instance %d" % (obj["masks"], nvalid, n, b))
+        print("recorded starts of the instance: %s feasible: %s" % (obj["starts_of_instance"], obj["feasible_under_mask"]))
+        if obj.get("rng_state_hex"):
+            torch.set_rng_state(torch.frombuffer(bytearray(bytes.fromhex(obj["rng_state_hex"])), dtype=torch.uint8))
+        own, feas, bad = judge(ops.sample_n_random_actions(td, n).tolist())
+        print("observed now with the recorded generator state: %s feasible: %s distinct: %s" % (own, feas, len(set(own)) == n))
+        torch.manual_seed(0)
+        nbad = sum(1 for _ in range(200) if judge(ops.sample_n_random_actions(td, n).tolist())[2])
+        print("200 fresh draws: the property fails on %d of them" % nbad)
+        bad = bad or nbad > 0
+        print("property %s on the current tree" % ("FAILS" if bad else "holds"))
+        return 1 if bad else 0
     if obj.get("kind_") != "starts":
         import json
         print(json.dumps(obj, indent=1)[:3000])
